@@ -82,7 +82,7 @@ func (w *vpWorld) checkReleaseContract(kind int) {
 			// app reserve key of an immutable/never deployment
 			if k.Deployment() && e.Policy == 1 {
 				mustFree := !exists || held > replicas
-				verifKnown("kf-C03-app-reserve-never-freed", true)
+				verifKnown("kf-C03-app-reserve-never-freed", w.reserveStale)
 				verifAssert("C03/reserve-freed", !mustFree, "an IP held in reserve for an immutable deployment stays allocated although the deployment is gone or holds more IPs than replicas: "+e.Key)
 			}
 			continue
@@ -208,6 +208,10 @@ func vpC03Lifecycle(o vpC03Opts) {
 	}
 	if nondetBool() {
 		w.syncListers()
+	} else if !appFirst && appAction != 0 {
+		// the unbind below decides with the deployment as the informer cache still has it: what it puts into the app
+		// reserve is never looked at again (known finding)
+		w.reserveStale = true
 	}
 	// every pending event is handled or lost
 	for len(w.pending) > 0 {
@@ -240,7 +244,9 @@ func VerifC03_t_lifecycleTwoPods() {
 
 // BOUND: topology 1 (4 IPs); a deployment with the immutable policy, replicas 3, three pods bound; scaled to 2 (one IP is surplus) or left at 3 (none is); two of its pods are deleted; the unbind of the first runs while the unbind of the second runs as a second logical thread starting inside any one window right before/after an API-server or IPAM call of the first (symbolic window 0..14), parking wherever it needs a key lock the first holds; then caches catch up and one resync pass. The deployment must end up holding exactly min(3, replicas) IPs: the surplus is released once, nothing the policy reserves is released
 // ASSUME: C03: two logical threads as in VerifC01_q_releaseVsRebind
-func VerifC03_q_concurrentUnbinds() {
+func VerifC03_q_concurrentUnbinds() { vpConcurrentUnbinds("C03") }
+
+func vpConcurrentUnbinds(prop string) {
 	w := vpNewWorld(1, false)
 	if err := w.configure(); err != nil {
 		return
@@ -248,6 +254,7 @@ func VerifC03_q_concurrentUnbinds() {
 	w.wrapIPAM()
 	w.setDeployment(3)
 	var names []string
+	initialIPs := map[string][]string{}
 	for i := 0; i < 3; i++ {
 		name := vpPodNameOf(vpKindDp, i)
 		names = append(names, name)
@@ -258,6 +265,7 @@ func VerifC03_q_concurrentUnbinds() {
 			return
 		}
 		w.setRunning(name)
+		initialIPs[name] = vpBoundIPs(w.pods[name])
 	}
 	replicas := int32(2 + nondetChoice(2))
 	w.setDeployment(replicas)
@@ -288,8 +296,71 @@ func VerifC03_q_concurrentUnbinds() {
 		}
 	}
 	verifReach("both-unbound")
-	verifAssert("C03/immutable-dp-keeps-replicas", held >= int(replicas), "overlapping unbinds of an immutable deployment released IPs the policy reserves: it holds fewer IPs than replicas")
-	verifAssert("C03/immutable-dp-surplus-released", held <= int(replicas), "an immutable deployment holds more IPs than replicas after its surplus pods are gone")
-	verifAssert("C03/agree-concurrent", w.agree(), "memory and store disagree")
-	verifAssert("C03/no-lock-held", w.noLockHeld(), "a lock is still held")
+	verifAssert(prop+"/immutable-dp-keeps-replicas", held >= int(replicas), "overlapping unbinds of an immutable deployment released IPs the policy reserves: it holds fewer IPs than replicas")
+	verifAssert(prop+"/immutable-dp-surplus-released", held <= int(replicas), "an immutable deployment holds more IPs than replicas after its surplus pods are gone")
+	verifAssert(prop+"/agree-concurrent", w.agree(), "memory and store disagree")
+	verifAssert(prop+"/no-lock-held", w.noLockHeld(), "a lock is still held")
+	// the replacement of a deleted pod takes an IP the deployment held (C02: sticky for the application)
+	heldBefore := map[string]bool{}
+	for _, n := range names {
+		for _, ip := range initialIPs[n] {
+			heldBefore[ip] = true
+		}
+	}
+	repl := vpPodNameOf(vpKindDp, 7)
+	w.createPod(vpMakePod(repl, "U"+repl, vpKindDp, "immutable", "", ""))
+	w.syncListers()
+	if nodes, err := w.filter(repl, "n1", "n2", "n3"); err == nil && len(nodes) > 0 {
+		if w.bind(repl, nodes[0]) == nil {
+			for _, ip := range vpBoundIPs(w.pods[repl]) {
+				verifAssert(prop+"/replacement-takes-held-ip", heldBefore[ip], "the replacement pod of an immutable deployment got a fresh IP although the deployment is entitled to the IPs it held")
+			}
+		}
+	}
+}
+
+// BOUND: topology 1; a deployment with the immutable policy, replicas 2 or 3, that many pods bound; one pod is deleted and its event handled (its IP goes to the deployment's reserve); the deployment is scaled down by one and the caches catch up; a second pod is deleted and its event handled; one resync pass. The deployment must hold exactly the new number of replicas: the IP of the second pod is surplus (the reserve counts) and is released
+func VerifC03_q_scaleBetweenDeletes() {
+	w := vpNewWorld(1, false)
+	if err := w.configure(); err != nil {
+		return
+	}
+	n := 2 + nondetChoice(2)
+	w.setDeployment(int32(n))
+	var names []string
+	for i := 0; i < n; i++ {
+		name := vpPodNameOf(vpKindDp, i)
+		names = append(names, name)
+		w.createPod(vpMakePod(name, "U"+name, vpKindDp, "immutable", "", ""))
+		w.syncListers()
+		nodes, err := w.filter(name, "n1", "n2", "n3")
+		if err != nil || len(nodes) == 0 || w.bind(name, nodes[0]) != nil {
+			return
+		}
+		w.setRunning(name)
+	}
+	w.syncListers()
+	w.deletePod(names[0])
+	w.syncListers()
+	for len(w.pending) > 0 {
+		_ = w.handleEvent(0)
+	}
+	w.setDeployment(int32(n - 1))
+	w.syncListers()
+	w.deletePod(names[1])
+	w.syncListers()
+	for len(w.pending) > 0 {
+		_ = w.handleEvent(0)
+	}
+	w.resync()
+	held := 0
+	for _, e := range w.dump() {
+		if e.Allocated && strings.HasPrefix(e.Key, "dp_ns_app_") {
+			held++
+		}
+	}
+	verifReach("scaled-between-deletes")
+	verifAssert("C03/immutable-dp-surplus-released-sequential", held <= n-1, "an immutable deployment holds more IPs than replicas after a pod was deleted while its reserve already made up the surplus")
+	verifAssert("C03/immutable-dp-keeps-replicas-sequential", held >= n-1, "an immutable deployment holds fewer IPs than replicas")
+	verifAssert("C03/agree-sequential", w.agree(), "memory and store disagree")
 }
